@@ -269,6 +269,35 @@ theorem bind_ok_sound (m : Mode) (a : AtenSchema) (s : OsSig) (h : bindsOk m a s
     have := hc.npos_le
     omega
 
+
+/-- **`bindS_is_stack_loop`** (fidelity of the transcription): the counter form `bindS` used in the proofs is
+the literal stack loop of `_construct_named_inputs_and_attrs` (`reversed_args_stack` = the positional
+indices `k, k+1, …, npos-1`, popped one per parameter). -/
+theorem bindS_is_stack_loop (npos : Nat) (kws : List String) (k : Nat) (ps : List OParam) :
+    bindStk kws (List.range' k (npos - k)) ps = bindS npos kws k ps := by
+  induction ps generalizing k with
+  | nil => cases h : List.range' k (npos - k) <;> simp [bindStk, bindS]
+  | cons p ps ih =>
+    by_cases c1 : k < npos
+    · have hr : List.range' k (npos - k) = k :: List.range' (k + 1) (npos - (k + 1)) := by
+        have : npos - k = (npos - (k + 1)) + 1 := by omega
+        rw [this, List.range'_succ]
+      rw [hr]
+      simp only [bindStk, bindS, c1, if_true]
+      rw [ih (k + 1)]
+    · have h0 : npos - k = 0 := by omega
+      have h1 : npos - (k + 1) = 0 := by omega
+      have ih' := ih (k + 1)
+      rw [h1] at ih'
+      simp only [List.range'_zero] at ih'
+      rw [h0]
+      simp only [List.range'_zero, bindStk, bindS, c1, if_false, ih']
+
+example : bindStk ["alpha"] [0, 1] [⟨"self", true, .none, true, false, true, .otherPlain, false⟩,
+      ⟨"other", true, .none, true, false, true, .otherPlain, false⟩,
+      ⟨"alpha", false, .float, false, false, true, .base .float, true⟩] =
+    .ok [some (.pos 0), some (.pos 1), some (.kw "alpha")] := by decide
+
 /-- Non-vacuity: `aten::add.Tensor(Tensor self, Tensor other, *, Scalar alpha=1)` against
 `aten_add(self, other, alpha: float = 1.0)`; both admissible calls conform. -/
 example :
